@@ -16,6 +16,7 @@ import (
 	"net"
 	"net/url"
 	"os"
+	"os/exec"
 	"path/filepath"
 	"strings"
 	"time"
@@ -260,3 +261,6 @@ func min(a, b int) int {
 	}
 	return b
 }
+
+// newSelfCommand re-executes this binary with the same arguments.
+func newSelfCommand() *exec.Cmd { return exec.Command(os.Args[0], os.Args[1:]...) }
